@@ -59,9 +59,29 @@ def run(ck):
         for kind, c, cond in [("all", None, "all(X)")] + [("of", c, "of(X, %d)" % c) for c in range(0, n + 2)]:
             q = {"X": seq, "condition": cond}
             e = dict(ex_ids, condition=explicit(kind, c, names))
-            qc = {"k": "rule", "id": ck.new_id(), "rule": rule_text(q), "docs": ddocs, "sw": [0]}
+            qc = {"k": "rule", "id": ck.new_id(), "rule": rule_text(q), "docs": ddocs, "sw": [0, 15]}
             ec = {"k": "rule", "id": ck.new_id(), "rule": rule_text(e), "docs": ddocs, "sw": [0]}
             pairs.append((qc, ec, {"form": "ident_seq:" + kind, "members": members, "threshold": c, "kind": kindname, "docs": docs}))
+        # a mapping identifier with n entries on DISTINCT fields k1..kn (an and-group: all(X) / of(X, c)
+        # count its entries all the same), also as optimised by default
+        if n >= 2:
+            keys = ["k%d" % i for i in range(1, n + 1)]
+            mdocs = []
+            for j in range(len(docs) + 2):
+                dd = {}
+                for i, kk in enumerate(keys):
+                    src = docs[(j * (i + 1) + i) % len(docs)]
+                    if "k" in src:
+                        dd[kk] = src["k"]
+                mdocs.append(dd)
+            mddocs = [D(d) for d in mdocs]
+            ex_ids2 = {nm: {kk: m} for nm, kk, m in zip(names, keys, members)}
+            for kind, c, cond in [("all", None, "all(X)")] + [("of", c, "of(X, %d)" % c) for c in range(0, n + 2)]:
+                q = {"X": {kk: m for kk, m in zip(keys, members)}, "condition": cond}
+                e = dict(ex_ids2, condition=explicit(kind, c, names))
+                qc = {"k": "rule", "id": ck.new_id(), "rule": rule_text(q), "docs": mddocs, "sw": [0, 15]}
+                ec = {"k": "rule", "id": ck.new_id(), "rule": rule_text(e), "docs": mddocs, "sw": [0]}
+                pairs.append((qc, ec, {"form": "ident_mapping:" + kind, "members": members, "threshold": c, "kind": kindname, "docs": mdocs}))
         # a ONE-entry mapping identifier whose value is the list: all(X) must be X itself
         q = {"X": {"k": members}, "condition": "all(X)"}
         e = {"X": {"k": members}, "condition": "X"}
@@ -86,11 +106,25 @@ def run(ck):
             if a["load"] == "ok" and b["load"] != "ok":
                 pass
             continue
-        ra, rb = a["res"].get(0, ""), b["res"].get(0, "")
-        classes = common.known_of(model[qc["id"]]).get(0, [])
+        rb = b["res"].get(0, "")
         la, lb = common.strip_extra(impl[qc["id"]]), common.strip_known(model[qc["id"]])
         agrees = la == lb
-        for i, (x, y) in enumerate(zip(ra, rb)):
+        runs = [(0, a["res"].get(0, ""))]
+        if 15 in qc["sw"]:
+            # the same quantified rule as optimised by default: the members are still counted as written.
+            # Where a listed class of C01 (D13, D16, D17: negative positions) accepts the rule for these
+            # switches the comparison is left to C01.
+            c15 = common.known_of(model[qc["id"]]).get(15, [])
+            if any(k in (13, 16, 17) for k in c15):
+                ck.count("optimised_form_left_to_C01")
+            else:
+                runs.append((15, a["res"].get(15, "")))
+                ck.count("optimised_form_compared")
+        for swn, ra in runs:
+          classes = common.known_of(model[qc["id"]]).get(swn, [])
+          if len(ra) != len(rb):
+            ra = "?" * len(rb)
+          for i, (x, y) in enumerate(zip(ra, rb)):
             evals += 1
             if len(meta["members"]) > 1:
                 nontrivial.add((qc["rule"], i))
@@ -106,8 +140,8 @@ def run(ck):
                                   "what": "a quantified list does not count the members as written (differs from the explicit and/or/not form)",
                                   "form": meta["form"], "members": meta["members"], "threshold": meta["threshold"],
                                   "quantified_rule": qc["rule"], "explicit_rule": ec["rule"], "doc": meta["docs"][i],
-                                  "quantified": x, "explicit": y, "model_reproduces": agrees, "classes_accepting": classes,
-                                  "replay_case": {"k": "rule", "id": 1, "rule": qc["rule"], "docs": [qc["docs"][i]], "sw": [0]}})
+                                  "quantified": x, "explicit": y, "switch_set": swn, "model_reproduces": agrees, "classes_accepting": classes,
+                                  "replay_case": {"k": "rule", "id": 1, "rule": qc["rule"], "docs": [qc["docs"][i]], "sw": [swn]}})
                 direct_failed.add(qc["id"])
     ck.coverage["suppressed_as_known"] = suppressed
     # listed findings
@@ -131,7 +165,8 @@ def run(ck):
     ck.coverage["distinct_nontrivial"] = len(nontrivial)
     ck.coverage["rule"] = (
         "member lists of length 1..%d over strings/regexes, numbers, booleans and mappings x plain / all() / of(k, 0..len+1) on a "
-        "key, and all(X) / of(X, n) over identifiers (sequence of one-entry mappings; one-entry mapping holding the list), each "
+        "key, and all(X) / of(X, n) over identifiers (sequence of one-entry mappings; mapping with n entries on distinct fields; "
+        "one-entry mapping holding the list; the identifier forms also as optimised with the default switches), each "
         "compared on the crate with the same rule written out as explicit and/or/not over one-member identifiers, on documents "
         "with scalar fields (and absent). A difference is suppressed only if the model reproduces the quantified result and a "
         "classifier of a listed finding (D10/D11 batches, D24 one-entry mapping) accepts the rule. Non-trivial = more than one member."
